@@ -1,7 +1,7 @@
 """C10 — splits only rescale share counts (structural clauses)."""
 from mir import Terms, parse_callee, show, op_place, op_const, place_proj, subterms, is_decimal_arith_assign, summary
 from flow import root_of_operand
-from roles import Roles, RULES, POOL, LOT, agg_fields, guards_of, truth, is_agg
+from roles import Roles, RULES, POOL, LOT, agg_fields, guards_of, truth, is_agg, sell_time_ratio
 import panics as P
 
 META = {
@@ -55,25 +55,49 @@ def split_handler(R, rep):
     return h
 
 
+def _ratio_alternatives(r):
+    """for a cumulative-ratio term built functionally (φ of `prev × Split.ratio`, `prev ÷ Unsplit.ratio`, …):
+    -> {variant: set of ops applied with that variant's ratio}"""
+    out = {}
+    alts = r[1] if isinstance(r, tuple) and r and r[0] == "phi" else [r]
+    for a_ in alts:
+        if isinstance(a_, tuple) and a_ and a_[0] == "*":
+            for x in a_[1]:
+                if isinstance(x, tuple) and x[0] == "field" and x[2] == "ratio" and isinstance(x[1], tuple) and x[1][0] == "dc":
+                    out.setdefault(x[1][2], set()).add("mul")
+        if isinstance(a_, tuple) and a_ and a_[0] == "/":
+            num, den = a_[1], a_[2]
+            if isinstance(den, tuple) and den[0] == "field" and den[2] == "ratio" and isinstance(den[1], tuple) and den[1][0] == "dc":
+                out.setdefault(den[1][2], set()).add("div")
+            for x in subterms(num):
+                if isinstance(x, tuple) and len(x) == 3 and x[0] == "field" and x[2] == "ratio" and isinstance(x[1], tuple) and x[1][0] == "dc":
+                    out.setdefault(x[1][2], set()).add("inverse-div")
+    return out
+
+
 def ratio_ops(R, rep, h):
     F = R.F
     sites = []
     if h is not None:
         sites.append(("pool handler", h))
-    bnb = R.leg("BedAndBreakfast")[0]
-    # accumulator: a callee of the 30-day producer that Mul/Div-assigns through a &mut Decimal parameter by a ratio
-    for i, t in bnb.calls():
-        cb = F.bodies.get(t["callee"])
-        if cb is None:
-            continue
-        tb = R.terms(cb, 0)
-        ops = _variant_arm_ops(F, cb, tb)
-        if any(k in ("MulAssign", "DivAssign") and "ratio" in fs for _, k, _, _, fs, _ in ops):
-            sites.append(("30-day ratio accumulator", cb))
-    own = _variant_arm_ops(F, bnb, R.terms(bnb, 0))
-    if any(k in ("MulAssign", "DivAssign") and "ratio" in fs for _, k, _, _, fs, _ in own):
-        sites.append(("30-day ratio accumulator", bnb))
-    if len(sites) < 2:
+    bnb, bsites = R.leg("BedAndBreakfast")
+    # in-place accumulators (×= / ÷= through a &mut Decimal) in the producer or its helpers
+    rg = R.region(bnb)
+    acc_bodies = []
+    for hb in rg.bodies.values():
+        tb = R.terms(hb, 0)
+        if any(k in ("MulAssign", "DivAssign") and "ratio" in fs for _, k, _, _, fs, _ in _variant_arm_ops(F, hb, tb)):
+            acc_bodies.append(hb)
+    for hb in acc_bodies:
+        sites.append(("30-day ratio accumulator", hb))
+    functional = None
+    if not acc_bodies:
+        # functional style: the ratio used by Match.quantity is itself a term over Split/Unsplit ratios
+        for bb, term, site in bsites:
+            st = sell_time_ratio(agg_fields(term)["quantity"])
+            if st:
+                functional = (_ratio_alternatives(st[2]), site, st[2])
+    if len(sites) + (1 if functional else 0) < 2:
         rep.unresolved("R2", "ratio-sites", f"only {[s[0] for s in sites]} found (pool handler and look-ahead accumulator expected)")
     for label, b in sites:
         tb = R.terms(b, 0)
@@ -85,12 +109,21 @@ def ratio_ops(R, rep, h):
                 seen.setdefault(v, []).append((k, rhs, b.loc(t["sp"])))
         for v, want in (("Split", "MulAssign"), ("Unsplit", "DivAssign")):
             got = seen.get(v, [])
-            ok = len(got) == 1 and got[0][0] == want and got[0][1] == ("field", ("dc", got[0][1][1][1], v), "ratio") if got and isinstance(got[0][1], tuple) and got[0][1][0] == "field" else False
+            ok = len(got) == 1 and got[0][0] == want and isinstance(got[0][1], tuple) and got[0][1][0] == "field" and got[0][1][2] == "ratio" \
+                and isinstance(got[0][1][1], tuple) and got[0][1][1][0] == "dc" and got[0][1][1][2] == v
             rep.ob("R2", f"{label}:{v}", ok,
                    f"{v.upper()} {'multiplies' if want == 'MulAssign' else 'divides'} by its own ratio" if ok else
                    f"{label}: Operation::{v} is applied as {[(g[0], show(g[1])[:40]) for g in got] or 'nothing'} — expected {want} by {v}.ratio",
                    got[0][2] if got else b.loc(), key=f"R2:{label}:{v}")
-        # the unsplit division is guarded against a zero ratio (no panic) — informational via C15; not judged here
+    if functional:
+        alts, site, rterm = functional
+        for v, want in (("Split", "mul"), ("Unsplit", "div")):
+            got = alts.get(v, set())
+            ok = got == {want}
+            rep.ob("R2", f"30-day ratio accumulator:{v}", ok,
+                   f"{v.upper()} {'multiplies' if want == 'mul' else 'divides'} the cumulative ratio by its own ratio" if ok else
+                   f"30-day ratio accumulator: Operation::{v} is applied as {sorted(got) or 'nothing'} — expected {want} by {v}.ratio "
+                   f"(cumulative ratio = {show(rterm)[:100]})", site, key=f"R2:30-day ratio accumulator:{v}")
 
 
 def unit_discipline(R, rep):
@@ -98,35 +131,43 @@ def unit_discipline(R, rep):
     for bb, term, site in sites:
         f = agg_fields(term)
         q = f["quantity"]
-        # sell-time = min(remaining, avail / ratio)
-        ok = False
-        ratio = None
-        if isinstance(q, tuple) and q[0] == "call" and parse_callee(q[1])[2] == "min" and len(q[2]) == 2:
-            a, c = q[2]
-            div = c if isinstance(c, tuple) and c[0] == "/" else (a if isinstance(a, tuple) and a[0] == "/" else None)
-            rem = a if div is c else c
-            if div is not None and isinstance(div[2], tuple) and div[2][0] == "var" and isinstance(rem, tuple) and rem[0] == "param":
-                ok = True
-                ratio = div[2]
+        st = sell_time_ratio(q)
+        ok = st is not None
+        ratio = st[2] if st else None
         rep.ob("R3", "30-day:sell-time-qty=min(remaining, available÷ratio)", ok,
                "the matched quantity is expressed in the sale's units: availability at the acquisition is divided by the cumulative split ratio" if ok else
                f"Match.quantity is {show(q)[:100]} — availability is not rescaled to sell-time units", site, key="R3:bnb:sell-time")
         c = f["allowable_cost"]
-        okc = ratio is not None and isinstance(c, tuple) and c[0] == "*" and q in c[1] and ratio in c[1]
+        okc = ratio is not None and isinstance(c, tuple) and c[0] == "*" and _contains_product(c, [q, ratio])
         rep.ob("R3", "30-day:cost-uses-buy-time-qty", okc, "the cost is taken for quantity × ratio shares of the acquisition" if okc else
                f"30-day cost {show(c)[:80]} does not use Match.quantity × ratio", site, key="R3:bnb:cost-units")
-        # proceeds use the sell-time quantity
-        gp = None
-        for x in subterms(term):
-            pass
     tb = R.terms(b, 2)
+    q = agg_fields(sites[0][1])["quantity"] if sites else None
+    found = False
     for i, t in b.calls():
         cb = R.F.bodies.get(t["callee"])
         if cb is not None and cb.id in R.helpers:
             args = [tb.operand(a) for a in t["args"]]
-            q = agg_fields(sites[0][1])["quantity"] if sites else None
+            found = True
             rep.ob("R3", "30-day:proceeds-use-sell-time-qty", q in args, "proceeds are apportioned on the sell-time quantity" if q in args else
                    "the leg builder does not receive Match.quantity", b.loc(t["sp"]), key="R3:bnb:proceeds-units")
+    if not found and sites:
+        # leg built inline: gross proceeds = q × price is checked by C04-R2
+        pass
+
+
+def _contains_product(term, factors):
+    """term is a normalised product whose factor multiset contains the (flattened) factors"""
+    from mir import mk_mul
+    want = mk_mul(list(factors))
+    wl = list(want[1]) if isinstance(want, tuple) and want[0] == "*" else [want]
+    have = list(term[1]) if isinstance(term, tuple) and term[0] == "*" else [term]
+    for w in wl:
+        if w in have:
+            have.remove(w)
+        else:
+            return False
+    return True
 
 
 def variant_coverage(R, rep):
